@@ -1,5 +1,5 @@
 """Shared pieces of the correspondence harness."""
-import json, os, random, subprocess, sys, time
+import contextlib, json, os, random, signal, subprocess, sys, threading, time
 
 REPO = os.environ.get('VERIF_REPO', '/repo')
 ROOT = os.path.dirname(os.path.dirname(os.path.dirname(os.path.abspath(__file__))))
@@ -31,3 +31,63 @@ def side(dialect):
 
 def rng_for(seed, tag):
     return random.Random('%s/%s' % (seed, tag))
+
+
+class HangDetected(BaseException):
+    """raised by `time_limit` (BaseException: an `except Exception` in the code under test must not swallow it)"""
+
+
+_HANGS = [0]
+
+
+@contextlib.contextmanager
+def time_limit(seconds):
+    """bound one call into the real library; a call that does not return is a finding (hang), never an endless check.
+    Main thread only (SIGALRM); elsewhere it is a no-op."""
+    if threading.current_thread() is not threading.main_thread():
+        yield
+        return
+
+    # once hangs have been seen the verdict is settled: later calls get a short limit, then none at all,
+    # so that a library that hangs on a whole class of inputs cannot make the check run for hours
+    if _HANGS[0] >= 5:
+        raise HangDetected('skipped: %d calls did not return before' % _HANGS[0])
+    if _HANGS[0] >= 1:
+        seconds = min(seconds, 3)
+
+    def handler(sig, frm):
+        _HANGS[0] += 1
+        raise HangDetected('no result within %ss' % seconds)
+    old = signal.signal(signal.SIGALRM, handler)
+    signal.setitimer(signal.ITIMER_REAL, seconds)
+    try:
+        yield
+    finally:
+        signal.setitimer(signal.ITIMER_REAL, 0)
+        signal.signal(signal.SIGALRM, old)
+
+
+def install_lexer_guard():
+    """wrap sly's `Lexer.tokenize` (in this harness process only) so that a zero-length token - after which sly's loop
+    never advances - raises `HangDetected` instead of producing tokens for ever; generators of the harness that call
+    `list(lexer.tokenize(..))` then end, and the probes report the hang.  A loop that never yields is caught by `time_limit`."""
+    import sly.lex
+    if getattr(sly.lex.Lexer.tokenize, '_verif_guard', False):
+        return
+    orig = sly.lex.Lexer.tokenize
+
+    def tokenize(self, text, lineno=1, index=0):
+        for tok in orig(self, text, lineno, index):
+            if getattr(tok, 'end', None) == tok.index and tok.type != 'ERROR':
+                raise HangDetected('zero-length %s token at index %d: sly does not advance' % (tok.type, tok.index))
+            yield tok
+    tokenize._verif_guard = True
+    tokenize._verif_orig = orig
+    sly.lex.Lexer.tokenize = tokenize
+
+
+def remove_lexer_guard():
+    import sly.lex
+    t = sly.lex.Lexer.tokenize
+    if getattr(t, '_verif_guard', False):
+        sly.lex.Lexer.tokenize = t._verif_orig
